@@ -1453,59 +1453,43 @@ void DOMLSSerializerImpl::procCdataSection(const XMLCh*   const nodeValue
     static const XMLSize_t offset = XMLString::stringLen(gEndCDATA);
 
     /***
-     * Append a ']]>' at the end
+     * An empty section is written as such
      */
-    XMLSize_t len = XMLString::stringLen(nodeValue);
-    XMLCh* repNodeValue = (XMLCh*) fMemoryManager->allocate
-    (
-        (len + offset + 1) * sizeof(XMLCh)
-    );//new XMLCh [len + offset + 1];
-    XMLString::copyString(repNodeValue, nodeValue);
-    XMLString::catString(repNodeValue, gEndCDATA);
+    if (!nodeValue || !*nodeValue)
+    {
+        TRY_CATCH_THROW
+        (
+            *fFormatter << XMLFormatter::NoEscapes << gStartCDATA << gEndCDATA;
+        )
+        return;
+    }
+
+    XMLCh* repNodeValue = XMLString::replicate(nodeValue, fMemoryManager);
     ArrayJanitor<XMLCh>  jName(repNodeValue, fMemoryManager);
 
-    XMLCh* curPtr  = (XMLCh*) repNodeValue;
-    XMLCh* nextPtr = 0;
-    int    endTagPos = -1;
-
-    bool   endTagFound = true;
-
-    while (endTagFound)
+    /***
+     * Every "]]>" in the value ends the current section after the "]]";
+     * the '>' starts the next section, so that no character is lost and
+     * no section contains the end marker (DOM L3 LS, split-cdata-sections).
+     */
+    XMLCh* curPtr = repNodeValue;
+    for (;;)
     {
-        endTagPos = XMLString::patternMatch(curPtr, gEndCDATA);
-        if (endTagPos != -1)
-        {
-            nextPtr = curPtr + endTagPos + offset;  // skip the ']]>'
-            *(curPtr + endTagPos) = chNull;         //nullify the first ']'
-            if (XMLSize_t(endTagPos) != len)
-                reportError(nodeToWrite, DOMError::DOM_SEVERITY_WARNING, XMLDOMMsg::Writer_NestedCDATA);
-            len = len - endTagPos - offset;
-        }
-        else
-        {
-            endTagFound = false;
-        }
-
-        /***
-            to check ]]>]]>
-        ***/
-        if (endTagPos == 0)
-        {
-            TRY_CATCH_THROW
-            (
-                *fFormatter << XMLFormatter::NoEscapes << gStartCDATA << gEndCDATA;
-            )
-        }
-        else
+        const int endTagPos = XMLString::patternMatch(curPtr, gEndCDATA);
+        if (endTagPos == -1)
         {
             procUnrepCharInCdataSection(curPtr, nodeToWrite);
+            break;
         }
 
-        if (endTagFound)
-        {
-            *(nextPtr - offset) = chCloseSquare;   //restore the first ']'
-            curPtr = nextPtr;
-        }
+        reportError(nodeToWrite, DOMError::DOM_SEVERITY_WARNING, XMLDOMMsg::Writer_NestedCDATA);
+
+        XMLCh* const splitPtr = curPtr + endTagPos + offset - 1;   // the '>'
+        const XMLCh  saved = *splitPtr;
+        *splitPtr = chNull;
+        procUnrepCharInCdataSection(curPtr, nodeToWrite);
+        *splitPtr = saved;
+        curPtr = splitPtr;
     }
 }
 
